@@ -75,7 +75,7 @@ class Douglas(DiscriminativeModel):
 
     _parameter_constraints: dict = {
         **DiscriminativeModel._parameter_constraints,
-        "n_cuts": [Interval(Integral, 1, None, closed="left"), None],
+        "n_cuts": [Interval(Integral, 1, None, closed="left")],
         "feature_mask": [np.ndarray, None],
         "temperature": [Interval(Real, 0, None, closed="neither")],
     }
